@@ -118,7 +118,7 @@ def execute(case, ctx):
         t0 = time.time()
         ref2 = ctx.run(flavour, sc, timeout=600, fresh=True)
         t1b = time.time() - t0
-        timeout = max(180.0, 300.0 * max(t1, t1b))
+        timeout = max(150.0, 300.0 * max(t1, t1b))
         answers, status, stderr = run_mpi(flavour, sc, P, threads=T, timeout=timeout, extra_env=env, wd=ctx.wd)
 
     def fail(what, sig, extra=None):
